@@ -7,6 +7,7 @@ package simdisk
 
 import (
 	"bytes"
+	"runtime"
 	"sort"
 	"strings"
 	"sync"
@@ -34,6 +35,8 @@ type Disk struct {
 	CtxLog []string
 	// Frozen: writes go nowhere (a crashed node's zombie writes).
 	Frozen bool
+	// YieldBeforeWrite: number of scheduler yields before each write (slow-disk fault).
+	YieldBeforeWrite int
 	// OnBoundary, if set, is called after each write boundary with its index.
 	OnBoundary func(k int)
 	// ReadFault, if set, may alter a value on its way out of Get/Iterator.Value.
@@ -57,6 +60,11 @@ func cp(b []byte) []byte {
 }
 
 func (d *Disk) apply(ops []Op) {
+	// "slow disk" fault: the writer yields the processor before the write becomes
+	// durable, which widens the window for whatever runs concurrently with it
+	for i := 0; i < d.YieldBeforeWrite; i++ {
+		runtime.Gosched()
+	}
 	d.mu.Lock()
 	defer d.mu.Unlock()
 	if d.Frozen {
